@@ -19,6 +19,8 @@ inductive CmpSym | eq | ne | lt | le | gt | ge
 deriving DecidableEq, Repr
 inductive UnSym | neg | bnot
 deriving DecidableEq, Repr
+inductive LogSym | land | lor
+deriving DecidableEq, Repr
 
 def BinSym.sym : BinSym → String
   | .add => "+" | .sub => "-" | .mul => "*" | .div => "/" | .mod => "%" | .xor => "^" | .band => "&" | .bor => "|"
@@ -80,6 +82,14 @@ def compareOp (sem : PlainSem) (op : CmpSym) (a b : Operand) : Res (Bool × CmpW
       match sem.cmp op x y with
       | some r => .ok (r, if a.wrap = .tvol ∨ b.wrap = .tvol then .hint else .taintedBool)
       | none => .undef
+  | _, _ => .abort
+
+/-- `BooleanBinaryOp` / `BooleanBinaryOpWrappedRhs` (`&&`, `||`): unwrap both operands (both are
+evaluated: overloading loses the short circuit), apply the primitive with the same symbol; the result is
+`tainted<bool>` whatever the wrappers -/
+def logicalOp (log : LogSym → TV → TV → Bool) (op : LogSym) (a b : Operand) : Res Bool :=
+  match unwrap a, unwrap b with
+  | some x, some y => .ok (log op x y)
   | _, _ => .abort
 
 def unaryOp (sem : PlainSem) (op : UnSym) (a : Operand) : Res TV :=
@@ -167,6 +177,12 @@ def cppCmp (op : CmpSym) (x y : TV) : Option Bool :=
   let b := r.cast y.val
   some (match op with
     | .eq => a == b | .ne => a != b | .lt => decide (a < b) | .le => decide (a ≤ b) | .gt => decide (a > b) | .ge => decide (a ≥ b))
+
+/-- the plain `&&` and `||` on integers: each operand is contextually converted to `bool` (non-zero) first -/
+def cppLog (op : LogSym) (x y : TV) : Bool :=
+  match op with
+  | .land => (x.val != 0) && (y.val != 0)
+  | .lor => (x.val != 0) || (y.val != 0)
 
 def cppUn (op : UnSym) (x : TV) : Option TV :=
   let r := promote x.ty
